@@ -124,7 +124,10 @@ def run_both(histories, jobs=8):
 def fields(obs):
     """status, getters(list of int)|None, alloc, untouched, data(list), stale"""
     parts = obs.split(" | ")
-    d = {"status": parts[0], "g": None, "a": None, "u": None, "d": None, "s": None}
+    d = {"status": parts[0], "g": None, "a": None, "u": None, "d": None, "s": None, "site": None}
+    if parts[0].split(" ")[0] in ("panic", "abort"):
+        d["site"] = parts[0]
+        d["status"] = parts[0].split(" ")[0]
     for p in parts[1:]:
         if p.startswith("g "):
             d["g"] = [int(x) for x in p.split()[1:]]
@@ -146,7 +149,7 @@ def data_mode(new_line):
     if kind in ("fastin", "fastout"):
         return "exact"
     if kind in ("sincin", "sincout"):
-        return "exact" if t[-1] == "probe" else "tol"
+        return "exact" if t[-1] in ("probe", "lprobe") else "tol"
     return "none"
 
 
@@ -177,10 +180,6 @@ def compare(h):
         if r in ("skip",) and m in ("skip",):
             continue
         fr, fm = fields(r), fields(m)
-        for f_ in (fr, fm):
-            if f_["status"].split(" ")[0] in ("panic", "abort"):
-                f_["site"] = f_["status"]
-                f_["status"] = f_["status"].split(" ")[0]
         if fr["status"] != fm["status"]:
             return {"step": k, "op": op, "real": r, "model": m, "what": "status"}
         if fr["g"] != fm["g"]:
